@@ -86,6 +86,11 @@ pub enum QuadHow {
     /// otherwise), pushes, `build()`, then `From<QVector>`
     Builder(u8),
     Default,
+    /// collect directly into the structure from an iterator with an inexact size hint
+    CollectLoose(IntTy, u8),
+    /// `QVectorBuilder::new()`, then the symbols in pieces: `extend` from exact and loose
+    /// iterators and single pushes; `build()`, then `From<QVector>`
+    BuilderPieces(u8),
 }
 
 #[derive(Clone, PartialEq, Debug)]
@@ -158,6 +163,34 @@ impl QuadVal {
                     IntTy::U64 => news!(u64),
                     IntTy::Usize => news!(usize),
                     _ => news!(u128),
+                }
+            }
+            QuadHow::CollectLoose(ty, mode) => with_int_ty!(ty, T => {
+                let v = carry::<T>(q, salt);
+                match kind {
+                    QuadKind::Qv => QuadVal::Qv(crate::loose::loose_iter(v, mode).collect()),
+                    QuadKind::Rs256 => QuadVal::Rs256(crate::loose::loose_iter(v, mode).collect()),
+                    QuadKind::Rs512 => QuadVal::Rs512(crate::loose::loose_iter(v, mode).collect()),
+                }
+            }),
+            QuadHow::BuilderPieces(mode) => {
+                let mut b = qwt::QVectorBuilder::new();
+                for (j, piece) in crate::loose::pieces(q, mode as u64).into_iter().enumerate() {
+                    match (j + mode as usize) % 3 {
+                        0 if piece.len() < 40 => {
+                            for s in piece {
+                                b.push(s);
+                            }
+                        }
+                        1 => b.extend(piece),
+                        _ => b.extend(crate::loose::loose_iter(piece, mode.wrapping_mul(37).wrapping_add(j as u8))),
+                    }
+                }
+                let qv = b.build();
+                match kind {
+                    QuadKind::Qv => QuadVal::Qv(qv),
+                    QuadKind::Rs256 => QuadVal::Rs256(RSQVector256::from(qv)),
+                    QuadKind::Rs512 => QuadVal::Rs512(RSQVector512::from(qv)),
                 }
             }
             QuadHow::Collect(ty) => with_int_ty!(ty, T => {
